@@ -21,6 +21,9 @@ PROGS = [
     {"nodes": [{"k": "par", "explicit_cfg": True, "large_items": [0, 1], "cfg": {"min": 2},
                 "branches": [[{"k": "step"}], [{"k": "step"}], [{"k": "wait", "s": 5}]]}, {"k": "wait"}]},
     {"nodes": [{"k": "map", "large_items": [0], "branches": [[{"k": "step"}], [{"k": "step"}]]}, {"k": "wait"}]},
+    # non-ASCII results: 150 000 characters = 300 KB of UTF-8 (900 KB in the escaped default encoding) must not be recorded in full
+    {"nodes": [{"k": "child", "uni": 150000, "body": [{"k": "step"}]}, {"k": "wait"}, {"k": "step"}]},
+    {"nodes": [{"k": "child", "uni": 40000, "body": [{"k": "step"}]}, {"k": "wait"}, {"k": "step"}]},
     # early completion with max_concurrency below the branch count: some branches are never scheduled (no record at all) and are
     # reported as STARTED items; the rebuilt result must still list them
     {"nodes": [{"k": "map", "maxc": 1, "explicit_cfg": True, "large_items": [0, 1], "cfg": {"min": 2},
